@@ -5,6 +5,15 @@ TECH = "contract-based deductive verification: pyvc VC generation from the real 
 TRUST = ("home-made VC generator (Python subset semantics of DESIGN section 2), assumed external contracts listed in the evidence "
          "file's trusted_base, solver soundness; see evidence.assumptions")
 CLAIMED = {
+    "C09": ("proof", "annotate_citations' loop invariant: the document text emitted so far (everything but the inserted before/after strings) equals the target "
+            "text up to last_end, hence the whole target at exit -- no character dropped, duplicated or reordered -- discharged for all texts, annotation lists, "
+            "modes and both diff engines (under E-DIFF), together with SpanUpdater's class invariant and maybe_balance_style_tags' slice contract.", "6/C09"),
+    "C10": ("proof", "SpanUpdater.__init__ establishes the range invariant UPD from any diff satisfying E-DIFF; update() stays within the source for both bisect "
+            "variants; in 'unchecked' mode without a source every non-overlapping non-empty span is emitted exactly once as before+text[start:end]+after in "
+            "span order (two-state step clause). Clause C and monotonicity are bounded (stand-in) only.", "6/C10"),
+    "C11": ("proof", "Guards of the tag-handling modes as two-state step clauses of the annotate loop: 'skip' emits only spans that passed the balance test (also "
+            "after the style-tag repair), 'wrap' omits an annotation only when fully covered; text content unchanged (C09's invariant). The step from these to "
+            "'the output parses' is the assumed lemma L-XML; the parse itself is bounded (stand-in, lxml as judge).", "6/C11"),
     "C03": ("proof", "filter_citations' postconditions -- nothing invented (every result is an input object), pairwise distinct spans, results ordered by span, "
             "every non-reference citation kept (unless a later element has the identical span) -- are discharged for all citation lists via a loop invariant "
             "with ghost index maps over the de-duplicated, sorted list; overlapping_citations equals its interval-intersection specification. "
